@@ -1362,6 +1362,15 @@ def m_indexset(ex, m, args, callee):
     return Tup([len(st.items) - 1, True]) if k == 'insert_full' else True
 
 
+@model(r'^<impl str>::eq_ignore_ascii_case$')
+def m_str_eq_ignore_case(ex, m, args, callee):
+    a, b = val(args[0]), val(args[1])
+    if isinstance(a, str) and isinstance(b, str):
+        fold = lambda t: ''.join(c.lower() if c.isascii() else c for c in t)
+        return fold(a) == fold(b)
+    raise Unmodelled('eq_ignore_ascii_case on non-concrete strings')
+
+
 @model(r'^String::(is_empty|len)$|^<impl str>::(is_empty|len)$')
 def m_str_len(ex, m, args, callee):
     t = val(args[0])
@@ -1629,6 +1638,81 @@ def m_int_from_str(ex, m, args, callee):
     if not ex.branch(in_range(v, ty), 'parsed int fits ' + ty):
         return err(Opaque('ParseIntError', 'Overflow'))
     return ok(v)
+
+
+def string_chars(v):
+    """code points (concrete ints or z3 Ints) of a string value: str, SymStr, or the pieces of a symbolic format!"""
+    v = deref_all(v)
+    if isinstance(v, str):
+        return [ord(c) for c in v]
+    if isinstance(v, SymStr):
+        return list(v.chars)
+    if isinstance(v, Opaque) and isinstance(v.info, tuple) and v.info and v.info[0] == 'pieces':
+        out = []
+        for pc in v.info[1]:
+            if isinstance(pc, str):
+                out += [ord(c) for c in pc]
+            else:
+                sub = string_chars(pc[1])
+                if sub is None:
+                    return None
+                out += sub
+        return out
+    return None
+
+
+@model(r'^<f64 as FromStr>::from_str$')
+def m_f64_from_str(ex, m, args, callee):
+    """decimal text `[-]ddd[.ddd]` -> the nearest double.  Concrete text: the exact value of that double (Python floats are
+    IEEE doubles); symbolic digits: the decimal value within half an ulp (relative 2^-53)."""
+    chars = string_chars(args[0])
+    if chars is None:
+        raise Unmodelled('f64::from_str of an opaque string')
+    if all(is_conc(c) for c in chars):
+        t = ''.join(chr(c) for c in chars)
+        import re as _r
+        if not _r.match(r'^[+-]?(\d+\.?\d*|\.\d+)([eE][+-]?\d+)?$', t):
+            if t.lower().lstrip('+-') in ('inf', 'infinity', 'nan'):
+                raise Unmodelled('f64::from_str of %r' % t)
+            return err(Opaque('ParseFloatError'))
+        f = float(t)
+        if f != f or f in (float('inf'), float('-inf')):
+            return ok(F64(Fraction(0), False, True))
+        return ok(F64(Fraction(f)))
+    neg = False
+    i = 0
+    if chars and is_conc(chars[0]) and chars[0] in (ord('-'), ord('+')):
+        neg = chars[0] == ord('-')
+        i = 1
+    ip, fp, seen_dot = [], [], False
+    for c in chars[i:]:
+        if is_conc(c) and c == ord('.') and not seen_dot:
+            seen_dot = True
+            continue
+        (fp if seen_dot else ip).append(c)
+    if not ip and not fp:
+        return err(Opaque('ParseFloatError'))
+    valid = True
+    val_ = z3.RealVal(0)
+    for c in ip:
+        okd, d = digit_value(c, 10)
+        valid = b_and(valid, okd)
+        val_ = val_ * 10 + z3.ToReal(zint(d))
+    scale = Fraction(1)
+    for c in fp:
+        okd, d = digit_value(c, 10)
+        valid = b_and(valid, okd)
+        scale = scale / 10
+        val_ = val_ + z3.ToReal(zint(d)) * zreal(scale)
+    if not ex.branch(valid, 'decimal digits valid'):
+        return err(Opaque('ParseFloatError'))
+    if neg:
+        val_ = -val_
+    r = ex.fresh('parsed_f64', 'Real')
+    a_ = z3.If(val_ >= 0, val_, -val_)
+    bound = a_ * zreal(Fraction(1, 2 ** 53)) + zreal(Fraction(1, 2 ** 1074))
+    ex.assume(z3.And(r - val_ <= bound, val_ - r <= bound))
+    return ok(F64(r, False, False))
 
 
 @model(r'^<impl char>::(to_digit|is_digit|is_ascii_digit|is_alphabetic|is_alphanumeric|is_whitespace|is_numeric|is_ascii_alphabetic|is_ascii_hexdigit|len_utf8)$|^char::methods::<impl char>::(\w+)$')
@@ -2225,6 +2309,11 @@ def m_map_from_iter(ex, m, args, callee):
 
 # ----------------------------------------------------------------------------- iterators
 
+@model(r'^(once|iter::once|empty|iter::empty)$')
+def m_iter_once(ex, m, args, callee):
+    return VecIter([args[0]] if m.group(1).endswith('once') else [])
+
+
 @model(r'^<(.*) as IntoIterator>::into_iter$')
 def m_into_iter(ex, m, args, callee):
     return into_iter_value(ex, args[0])
@@ -2690,6 +2779,63 @@ def m_dt_offset(ex, m, args, callee):
     return dup(load(r).fields[1])
 
 
+def zone_offset_ns(ex, zone, instant):
+    """UTC offset (ns) in force in `zone` at `instant`: constant for a FixedOffset, an uninterpreted function of the instant
+    for a named zone (daylight saving), bounded by one day"""
+    zone = deref_all(zone)
+    if isinstance(zone, Struct) and zone.name == 'FixedOffset':
+        return n_mul(zone.fields[0], 10 ** 9)
+    tag = 'tz'
+    if isinstance(zone, Struct) and zone.fields and isinstance(deref_all(zone.fields[0]), Opaque):
+        tag = str(deref_all(zone.fields[0]).tag)
+    f = z3.Function('tz_offset_ns_' + tag, z3.IntSort(), z3.IntSort())
+    o = f(zint(instant))
+    ex.assume(z3.And(o > -86400 * 10 ** 9, o < 86400 * 10 ** 9))
+    return o
+
+
+@model(r'^DateTime::naive_local$')
+def m_dt_naive_local(ex, m, args, callee):
+    d = val(args[0])
+    return Struct('NaiveDateTime', [n_add(d.fields[0], zone_offset_ns(ex, d.fields[1], d.fields[0]))])
+
+
+@model(r'^NaiveDateTime::(checked_add_signed|checked_sub_signed)$')
+def m_naive_checked(ex, m, args, callee):
+    nd = val(args[0])
+    t = val(args[1])
+    v = n_add(nd.fields[0], t) if m.group(1) == 'checked_add_signed' else n_sub(nd.fields[0], t)
+    if ex.branch(dt_in_range(v), 'NaiveDateTime stays in range'):
+        return some(ex, Struct('NaiveDateTime', [v]))
+    return none(ex)
+
+
+@model(r'^<(FixedOffset|Tz|Z|T) as TimeZone>::from_local_datetime$')
+def m_from_local_datetime(ex, m, args, callee):
+    zone = dup(val(args[0]))
+    naive = val(args[1])
+    if not (isinstance(naive, Struct) and naive.name == 'NaiveDateTime'):
+        raise Unmodelled('from_local_datetime of %r' % (naive,))
+    if isinstance(zone, Struct) and zone.name == 'FixedOffset':
+        return Struct('LocalResult', [some(ex, mk_datetime(n_sub(naive.fields[0], zone_offset_ns(ex, zone, 0)), zone))])
+    # named zone: the local time may not exist (gap); otherwise some instant whose local time it is
+    if ex.choose(2, 'local time exists in the zone') == 1:
+        return Struct('LocalResult', [none(ex)])
+    t = ex.fresh('instant', 'Int')
+    ex.assume(n_eq(n_add(t, zone_offset_ns(ex, zone, t)), naive.fields[0]))
+    return Struct('LocalResult', [some(ex, mk_datetime(t, zone))])
+
+
+@model(r'^LocalResult::(earliest|latest|single)$')
+def m_local_result(ex, m, args, callee):
+    return dup(val(args[0]).fields[0])
+
+
+@model(r'^<TimeDelta as Neg>::neg$')
+def m_td_neg(ex, m, args, callee):
+    return n_neg(val(args[0]))
+
+
 @model(r'^FixedOffset::(east_opt|west_opt)$')
 def m_fixed_offset(ex, m, args, callee):
     s = args[0]
@@ -2744,6 +2890,24 @@ def m_atomic_op(ex, m, args, callee):
         c = n_le(old, v)
         a.fields[0] = (old if c else v) if isinstance(c, bool) else b_ite(c, old, v)
     return old
+
+
+@model(r'^Layout::(pad_to_align|align_to|padding_needed_for)$')
+def m_layout_pad(ex, m, args, callee):
+    k = m.group(1)
+    l = val(args[0])
+    size, align = l.fields[0], l.fields[1]
+    if not is_conc(simp(align)):
+        raise Unmodelled('Layout::%s with a symbolic alignment' % k)
+    al = int(simp(align))
+    if k == 'pad_to_align':
+        if al == 1:
+            return Struct('Layout', [size, align])
+        if is_conc(size):
+            return Struct('Layout', [-(-int(size) // al) * al, align])
+        rem = zint(size) % al
+        return Struct('Layout', [z3.If(rem == 0, zint(size), zint(size) + (al - rem)), align])
+    raise Unmodelled('Layout::' + k)
 
 
 @model(r'^Layout::(size|align|from_size_align_unchecked|from_size_align)$')
